@@ -24,6 +24,7 @@ Statements are rendered in source order, one step each:
     if not isinstance(x, (Sequence, Iterable)) or isinstance(x, str): x = [x]   -> .wrapScalar
     vtype = self._check_new_value_types(vals)                        -> .checkTypes
     if np.ndim(x) != 1: raise ...                                    -> .checkFlat
+    if x is not None and len(x) != 0 and np.ndim(x) != 1: raise ...  -> .checkFlatNonEmpty
     if vtype == DataType.String: vals = [ensure_text(v) for v in vals]; _check_xxx(vals)
                                                                      -> .checkTypes per `_check_xxx(vals)` call
     dtype = DataType.Double                                          -> (recorded as the dtype of the next write_data)
@@ -189,6 +190,10 @@ def _flat_steps(stmts, var, dsname, where):
         elif isinstance(st, ast.If) and not st.orelse and _u(st.test) == _E("np.ndim(%s) != 1" % var) and \
                 len(st.body) == 1 and isinstance(st.body[0], ast.Raise):
             steps.append(".checkFlat")
+        elif isinstance(st, ast.If) and not st.orelse and \
+                _u(st.test) == _E("%s is not None and len(%s) != 0 and np.ndim(%s) != 1" % (var, var, var)) and \
+                len(st.body) == 1 and isinstance(st.body[0], ast.Raise):
+            steps.append(".checkFlatNonEmpty")
         elif s == "self.delete_values()":
             steps.append(".deleteValues")
         elif s == "dtype=DataType.Double":
